@@ -475,7 +475,7 @@ func main() {
 	out.Imports = "From Verif Require Import Base.Ip Model.Trusted.\n"
 	out.Rule = "NetCase: 1-4 trusted-list entries (v4/v6 literals and CIDRs with boundary prefix lengths, IPv4-mapped forms, zoned, surrounded by ASCII space, malformed IPs/bits; entries are ASCII except two marked strings) and 6 peers placed relative to the parsed prefixes (inside, last prefix bit flipped, first host bit flipped) in every textual shape (ip:port, [v6]:port, mapped text, zoned, no port, *net.TCPAddr, unix, pipe, nil, bracket garbage). WrapCase: configured list (sometimes empty = defaults, sometimes invalid) x generated peer x first bytes {PROXY v1 line, v2 PROXY, v2 LOCAL, Minecraft handshake (also with first byte 0x50/0x0D), 'PROX', nothing}. distinct = distinct Coq term; non-trivial = NetCase with an accepted list and both trusted and untrusted peers, or a rejected list; WrapCase whose stream carries a header"
 
-	nNet := f.Count(300)
+	nNet := f.Count(250)
 	for i := 0; i < nNet; i++ {
 		r := rng.Fork()
 		ne := r.Pick(1, 1, 2, 2, 3, 4)
@@ -553,7 +553,7 @@ func main() {
 			map[string]any{"kind": "net", "entries": entries, "accepted": err == nil, "peers": descPeers}, nt, tags...)
 	}
 
-	nWrap := f.Count(300)
+	nWrap := f.Count(250)
 	for i := 0; i < nWrap; i++ {
 		r := rng.Fork()
 		tags := []string{"kind=wrap"}
